@@ -4,6 +4,7 @@ from copy import deepcopy
 import numpy as np
 from harness.common import np_seed, Infra, parse_q, close_log, qlog
 from harness import spn as S
+from harness import histories as Hist
 from harness import rewrite as R
 from harness.build import build_from_table, table_with_py
 
@@ -71,14 +72,14 @@ def check_guards(ctx, root, rep):
         return
 
 
-def one_case(ctx, name, root, rs, n_keeps, rep_extra=None):
+def one_case(ctx, name, root, rs, n_keeps, rep_extra=None, history=None):
     if isinstance(root, (Sum, Product)):
         assign_ids(root)
     table, order, index, _ = S.export_net(root)
     scope = sorted(int(v) for v in root.scope)
     key = hashlib.sha256(json.dumps(table, sort_keys=True).encode()).hexdigest()[:16]
     clt = has_clt(order)
-    rep0 = dict(kind='c10', table=table_with_py(table, order)) if rep_extra is None else dict(kind='c10-learned', **rep_extra)
+    rep0 = dict(kind='c10', table=table_with_py(table, order), **(dict(history=history) if history else {})) if rep_extra is None else dict(kind='c10-learned', **rep_extra)
     subsets = [list(c) for r in range(1, len(scope) + 1) for c in itertools.combinations(scope, r)]
     if len(subsets) > n_keeps:
         subsets = [subsets[i] for i in rs.permutation(len(subsets))[:n_keeps]]
@@ -188,7 +189,18 @@ def run(ctx):
         if not isinstance(root, (Sum, Product)):
             continue
         done += 1
-        one_case(ctx, f'rand{k}', root, rs, 4 if quick else 12)
+        hist_extra = None
+        if k % 2 == 0 and Hist.em_capable(root) and not any(len({id(c) for c in n.children}) != len(n.children) for n in S.children_first(root)[0] if getattr(n, 'children', None)):
+            # the circuit went through earlier calls of the session (queries, EM with and without re-initialisation, re-weighting, save/load)
+            assign_ids(root)
+            t0, o0, _, _ = S.export_net(root)
+            root, steps = Hist.apply_history(rs, root, nv, int(rs.randint(1, 4)), count=ctx.count,
+                                             kinds=['query', 'em', 'em-random-init', 'em-random-init', 'em-step-direct', 'reassign-weights', 'saveload', 'pickle'])
+            if not isinstance(root, (Sum, Product)):
+                continue
+            ctx.count('circuits-marginalised-after-a-history')
+            hist_extra = dict(table0=table_with_py(t0, o0), steps=steps)
+        one_case(ctx, f'rand{k}' + (f' after {Hist.brief(hist_extra["steps"])}' if hist_extra else ''), root, rs, 4 if quick else 12, history=hist_extra)
         if ctx.n_new() >= 3:
             return
     for name, root, rs, cfg in learned_cases(ctx, 8 if quick else 120):
@@ -213,6 +225,10 @@ def replay(rep):
                                    learn_leaf_kwargs=dict(to_pc=False))
     else:
         root, _ = build_from_table(r['table'])
+        if r.get('history'):
+            root, _ = build_from_table(r['history']['table0'])
+            root = Hist.replay_history(root, r['history']['steps'])
+            assign_ids(root)
     before = S.export_net(root)[0]
     try:
         res = marginalize(root, list(r['keep']), copy=True)
